@@ -741,7 +741,7 @@ def job_scale(j):
     for k in range(j.get("n_cases", 3)):
         kind = rng.choice(j.get("kinds") or ["chain", "fan", "grid", "binary", "roots", "chain_beside_sequential", "fan_below_sequential", "fan_in"])
         n = rng.randint(j.get("nmin", 200), j.get("nmax", 600))
-        if k == 0:
+        if k == 0 and not j.get("kinds"):
             kind, n = "chain", rng.randint(520, 700)  # deeper than half of Python's default recursion limit
         if k == 1 and j.get("deep"):
             kind, n = "chain", rng.randint(1100, 1500)  # deeper than Python's default recursion limit
@@ -802,10 +802,13 @@ def job_scale(j):
         probes.reset_counts()
         B.Settings.controlled = False
         B.Settings.step_limit = 10 * len(d.exec_nodes) + 20
+        # (next to a sequential function the node bodies take a moment: an overlap must be able to show)
+        B.Settings.stress_sleep = 0.002 if "gseq" in fns else 0.0
         try:
             res = probes.run_op("call", lambda: sched.call_dag(d, {"kind": "call"}, [Sym("arg", k)]))
         finally:
             B.Settings.step_limit = 0
+            B.Settings.stress_sleep = 0.0
         log = B.snapshot()
         col.counters["scale_cases_%s" % kind] += 1
         col.counters["scale_nodes"] += n
@@ -826,7 +829,7 @@ def job_scale(j):
                 col.violation(pid, "large_dag_returned_wrong_value", dict(shape=kind, nodes=n, got=short(res[1], 200)), rp)
         if kind == "chain" and n >= 500:
             # executor selections deep inside the chain: exactly the documented closure runs (no traversal gives up half way)
-            mid = rng.randint(40, n - 50)
+            mid = rng.randint(40, 200) if n > 1050 and rng.random() < 0.6 else rng.randint(40, n - 50)  # (often more than 1000 below it)
             for kw_, exp_ in (({"target_nodes": [ids[mid]]}, set(range(mid + 1))), ({"exclude_nodes": [ids[mid]]}, set(range(mid))),
                               ({"target_nodes": [ids[n - 1]], "exclude_nodes": [ids[n - 2]]}, None)):
                 B.reset_log()
